@@ -572,6 +572,11 @@ func clientTask(st *rpcState) {
 		return
 	}
 	pieces, endErr := bodyPieces(st)
+	if cp.FirstByteDelayMs > 0 {
+		// a slow client (or network): simulated time passes between the request head and the first body byte
+		w.SleepMs(int64(cp.FirstByteDelayMs))
+		w.Logf("client.delay", "%dms", cp.FirstByteDelayMs)
+	}
 	for _, p := range pieces {
 		st.body.deliver(append([]byte(nil), p...))
 		st.BodySent += len(p)
